@@ -44,6 +44,14 @@ func (C04) Gen(r *simrt.RNG, tier string) core.Case {
 			w.Parties[pi].HasErr = true
 		}
 	}
+	// an ordinary output of type error in front of the final error result: only the
+	// final result is the function's error
+	if r.Chance(1, 10) {
+		pi := r.Intn(len(w.Parties))
+		if p := &w.Parties[pi]; pi > 0 && p.HasErr && p.OutForm == world.FormPositional && p.InForm != world.FormBuilt && len(p.Out) > 0 {
+			p.Out = append([]world.Slot{{Label: world.Label{Type: world.ErrIface}, Impl: world.ErrImpl}}, p.Out...)
+		}
+	}
 	nf := 1 + r.Intn(3)
 	for i := 0; i < nf; i++ {
 		pi := r.Intn(len(w.Parties))
